@@ -42,6 +42,10 @@ fn ctor(d: Duration, s: TimeScale) -> Epoch {
     }
 }
 
+fn in_bounds(v: i128) -> bool {
+    v > MIN_NS + 5 * NS_D && v < MAX_NS - 5 * NS_D
+}
+
 pub fn check(rep: &mut Rep, d: i128, s1: TimeScale, x: i128) {
     if !rep.tick() {
         return;
@@ -71,6 +75,22 @@ pub fn check(rep: &mut Rep, d: i128, s1: TimeScale, x: i128) {
         Ok(g) => {
             if g.time_scale != s1 || count_d(g.duration) != d {
                 rep.fail("ctor/value", None, || format!("from_{:?}_duration({d}) = ({}, {:?})", s1, fmt_parts(g.duration.to_parts()), g.time_scale));
+            }
+        }
+    }
+    if in_bounds(t) {
+        match guard(|| (e.to_tai_parts(), Epoch::from_tai_parts(canon(t).0, canon(t).1), Epoch::from_duration(mk(d), s1), e.to_tai_duration())) {
+            Err(p) => rep.fail(&format!("parts/panic/{}", p.class()), None, || format!("to_tai_parts/from_tai_parts on ({d},{:?}) panicked {}", s1, p.msg)),
+            Ok((tp, ftp, fd, td)) => {
+                if count(tp) != t || count_d(td) != t {
+                    rep.fail("parts/to_tai_parts", None, || format!("({d},{:?}).to_tai_parts() = {} want count {}", s1, fmt_parts(tp), t));
+                }
+                if ftp.time_scale != TimeScale::TAI || count_d(ftp.duration) != t {
+                    rep.fail("parts/from_tai_parts", None, || format!("from_tai_parts{:?} = ({}, {:?})", canon(t), count_d(ftp.duration), ftp.time_scale));
+                }
+                if fd.time_scale != s1 || count_d(fd.duration) != d {
+                    rep.fail("parts/from_duration", None, || format!("from_duration({d},{:?}) = ({}, {:?})", s1, count_d(fd.duration), fd.time_scale));
+                }
             }
         }
     }
